@@ -276,6 +276,37 @@ def run_shard(spec, rec):
                     got = (len(o[1]) == 1) if o[0] == "ok" else mon.describe_outcome(o)
                     if got is not False:
                         rec.violation("non-string-argument-not-false", {"function": fn, "s": jsonable(s), "p": jsonable(pp), "observed": got})
+    # escape-adjacency battery: every ordered pair (and sampled triples) of short pieces in which an escaped character sits
+    # right before or after '.', a class or a quantifier - decided by the oracle like any other pattern
+    PIECES = ["\\\\", "\\.", "\\[", "\\]", ".", "[.]", "[a.]", "[^.]", "[\\\\]", "[\\]]", "[\\[]", "a", "\\-", "[\\-.]", "\\(", "(.)", "\\{", "x{2}", "\\r", "\\n", "[\\r]", "\\|", "|", ".*",
+              "\\*", "\\?", "[.]*", "\\^", "\\$", "[\\^]"]
+    FIXED = ["\r", "\n", ".", "\\", "\\\r", "\\.", "a", "\\a", "[", "]", "\\[.]", "", "\\\n", "..", "\r\r", "[.]", "x", "\\x"]
+    combos = [a + b for a in PIECES for b in PIECES]
+    combos += [R.choice(PIECES) + R.choice(PIECES) + R.choice(PIECES) for _ in range(400)]
+    shard_no = int(str(spec["seed"]).split("/")[-1]) if str(spec["seed"]).split("/")[-1].isdigit() else 0
+    for ci, p in enumerate(combos):
+        if ci % 4 != shard_no % 4:
+            continue
+        try:
+            e = IR.parse(p)
+        except (IR.Gray, IR.Invalid):
+            continue
+        known = complementary_negated_class(e)
+        try:
+            with guard(30):
+                for s_ in FIXED + [sample(R, e) for _ in range(2)]:
+                    if len(s_) > 10:
+                        continue
+                    for fn, orc in (("match", IR.full), ("search", IR.search)):
+                        want = orc(e, s_)
+                        q, doc, got = ask(jp, rec, fn, s_, p, R.random() < 0.3, R)
+                        rec.case(("adjacency", p, s_, fn), True)
+                        rec.feat("escape-adjacency-battery")
+                        if got != want and not known:
+                            rec.violation("%s:%s" % (fn, "false-positive" if got is True else "false-negative" if got is False else "raises"),
+                                          {"function": fn, "pattern": p, "subject": s_, "query": q, "document": jsonable(doc), "expected": want, "observed": got, "source": "escape-adjacency-battery"})
+        except CaseTimeout:
+            rec.timeout(p)
     # patterns of doubtful validity (gray zones of RFC 9485, constructs of other dialects): the result is not decided
     # here, but neither function may raise
     for pat in G.HOSTILE_PATTERNS + ["a{2,1}", "[z-a]", "[b-a]x", "a{3,2}b", "(a{2,1})", "[^z-a]", "\\p{Cn}", "a{00}", "[a-\\d]", "x{1,0}|y"]:
